@@ -16,6 +16,7 @@ RULE = (
     "polled with its own waker and the harness reports (`woken f`) whether that waker fired: a future that goes from "
     "Pending to Ready without its waker having been woken would hang on an executor (the wake-up went to the abandoned "
     "call)."
+    ' Family budget-exhausted-poll: `pollx f` polls the future inside a runtime task whose cooperative budget (tokio coop) has been used up, as a consumer draining a backlog in a loop would; the future is then abandoned — whatever the library does about the budget, later recvs return every message on the wire, in order.'
 )
 ASSUMPTIONS = ["futures are dropped between polls (Rust futures cannot be cancelled inside a poll)"]
 TRUSTED = ["async-trait boxed futures; futures::StreamExt::next holds no state between polls"]
@@ -93,9 +94,55 @@ def req_noise_oracle(case, lines):
     return None
 
 
+def budget_cases():
+    """a recv polled from a task whose cooperative budget is used up (a consumer draining a backlog in a tight loop, a
+    select! after other I/O in the same poll) and then ABANDONED: whatever the library does with the budget, a message
+    must not be held in the recv future — everything is still delivered, in order, by later calls"""
+    out = []
+    n = 0
+    for t in PEER:
+        if t == "REQ":
+            continue
+        ms = [msgs_for(t, b"%d" % i)[0] for i in range(1, 4)]
+        for pattern in ("x", "xx", "xpx", "pxp"):
+            sc = wg.Script()
+            sc.sock(1, t)
+            sc.attach(1, 1, PEER[t], b"peer1")
+            for m in ms:
+                sc.reveal_msg(1, m)
+            futs = []
+            for ch in pattern:
+                f = sc.fut()
+                sc.add(f"recv {f} 1", f"{'pollx' if ch == 'x' else 'poll'} {f}", f"drop {f}")
+                futs.append(f)
+            for _ in range(len(ms) + 1):
+                f = sc.fut()
+                sc.add(f"recv {f} 1", f"poll {f}", f"drop {f}")
+                futs.append(f)
+            c = sc.case(f"budget-{t}-{pattern}#{n}", ["budget-exhausted-poll"])
+            c.expect = ("budget", t, ms)
+            out.append(c)
+            n += 1
+    return out
+
+
+def budget_oracle(case, lines):
+    _, t, ms = case.expect
+    got = [l for op, l in zip(case.ops, lines[1:]) if op.startswith(("poll ", "pollx ")) and l.startswith("ready ok M[")]
+    want = []
+    for m in ms:
+        d = {"REP": m[1:], "ROUTER": [b"peer1"] + m}.get(t, m)
+        want.append("ready ok M[" + wg.show_frames(d) + "]")
+    if got != want:
+        return (f"recv polled with the cooperative budget used up and then abandoned: the later calls returned {got} — every "
+                f"message on the wire must still be delivered, in order: {want}")
+    return None
+
+
 def cases(tier, rng):
     out = gen.corpus(ID)
     out += req_noise_cases()
+    out += budget_cases()
     n = 0
     for t in PEER:
         ms = msgs_for(t, b"1")
@@ -246,6 +293,8 @@ def oracle(case, lines):
         return lost
     if not case.expect:
         return None
+    if case.expect[0] == "budget":
+        return budget_oracle(case, lines)
     if case.expect[0] == "req-noise":
         return req_noise_oracle(case, lines)
     if case.expect[0] == "rep-reply":
